@@ -56,11 +56,15 @@ func c10Cases() []c10Case {
 		}
 	}
 	cs = append(cs, c10Case{Name: "adv/read-other/ok/cancel-after-fault", Fault: "read-other", Redial: "ok", CancelAt: "after-fault"})
+	// A solicited answer fails to transmit while a rate-limited multicast RA is still
+	// queued in the scheduler: the queued work must not keep the failed task alive.
+	cs = append(cs, c10Case{Name: "adv/write-unicast-pending-other/ok", Fault: "write-unicast-pending-other", Redial: "ok"},
+		c10Case{Name: "adv/write-unicast-pending-syscall/ok", Fault: "write-unicast-pending-syscall", Redial: "ok"})
 	return cs
 }
 
 func c10Recoverable(f string) bool {
-	return f == "read-syscall" || f == "write-syscall" || f == "link-change"
+	return f == "read-syscall" || f == "write-syscall" || f == "link-change" || f == "write-unicast-pending-syscall"
 }
 
 func c10Scenario(c c10Case) *vsched.Scenario {
@@ -100,6 +104,17 @@ func c10Scenario(c c10Case) *vsched.Scenario {
 				if fc.id != 0 || !strings.HasPrefix(c.Fault, "write") {
 					return nil
 				}
+				if strings.HasPrefix(c.Fault, "write-unicast-pending") {
+					if dst.IsMulticast() {
+						return nil
+					}
+					faultAt = w.now()
+					vsched.Obs("fault", "%s", c.Fault)
+					if strings.HasSuffix(c.Fault, "syscall") {
+						return os.NewSyscallError("sendmsg", syscall.ENETDOWN)
+					}
+					return other
+				}
 				nw++
 				if nw == 3 { // initial RA, first periodic RA, then this one fails
 					faultAt = w.now()
@@ -130,6 +145,11 @@ func c10Scenario(c c10Case) *vsched.Scenario {
 					}
 				case "link-change":
 					vsched.Send("harness:link-change", watchC, netstate.LinkDown)
+				case "write-unicast-pending-other", "write-unicast-pending-syscall":
+					vsched.Sleep(1100 * time.Millisecond) // a multicast RA went out at 6s
+					inject(rsFrom("::", false))            // its answer is held back until 9s
+					vsched.Sleep(100 * time.Millisecond)
+					inject(rsFrom("fe80::5", true)) // this answer's transmission fails
 				default: // write faults happen on the periodic RA due at 6s
 					vsched.Sleep(time.Second)
 				}
